@@ -73,6 +73,9 @@ pub fn iso_case(ctx: &Ctx, input: &Input, want: Area) -> CaseResult {
             return Ok(out);
         }
     };
+    if want == Area::Module {
+        structure_labels(&mut out, &da);
+    }
     let mut iso = Iso::new(&da, &db);
     // known findings of *any* property are stepped over so that the
     // comparison continues behind them; only this property's are reported
